@@ -161,6 +161,35 @@ func runC10(r *lib.Run) {
 					}
 					r.Violate(cl, featOf(d)+":"+form, d.String(), w(map[string]interface{}{"delta": d.String()}))
 				}
+				// a populated leaf-list is then set to the empty list (only JSON can say that)
+				if l.IsList && rng.Intn(2) == 0 {
+					etv, _ := lib.JSONIETF([]interface{}{})
+					var eerr error
+					if r.Guard("SetNode", w(map[string]interface{}{"second_set": "[]"}), func() {
+						eerr = ytypes.SetNode(rootEntry, sch.Root, gp, etv, &ytypes.InitMissingElements{})
+					}) {
+						break
+					}
+					if eerr == nil {
+						r.Hit("set:leaf-list-to-empty")
+						want2 := after.Clone()
+						delete(want2.Leaves, l.Path)
+						after2 := cfg.Observe(t)
+						for _, d := range lib.DiffObs(want2, after2, lib.DiffOpts{IgnoreOrder: true, EmptyLeafListIsAbsent: true}) {
+							if d.What == "entry" || d.What == "presence" {
+								continue
+							}
+							cl := "frame-violated"
+							if d.Path == l.Path {
+								cl = "stored-value-differs"
+							}
+							r.Violate(cl, featOf(d)+":json_ietf-empty-list", d.String(), w(map[string]interface{}{"delta": d.String(), "second_set": "[]"}))
+						}
+						after = after2
+					} else {
+						r.Hit("setnode-error:leaf-list-to-empty")
+					}
+				}
 				// order of pre-existing ordered-list entries is preserved
 				for lp, ord := range before.Order {
 					na := after.Order[lp]
